@@ -21,7 +21,7 @@ RULE = ("schemas with nested schemas, config types, lists of schemas / config ty
         "cincoconfig.ValidationError (a ValueError), ref_path == the declared path (a.b[2].c, d[key]) and a message "
         "starting with that path (plus ' (name)' for a friendly name); non-trivial = >= 3 rejections judged over >= 2 "
         "routes; distinct = distinct (schema, probes)")
-REQUIRED = ("schemas_with_premounted_fragments", "object_item_probes", "reordered_list_probes", "pos:dict-key", "rejections_judged", "route:attr", "route:dotted", "route:ctor", "route:load_tree", "route:loads", "pos:nested",
+REQUIRED = ("moved_object_probes:list-item", "moved_object_probes:section", "schemas_with_premounted_fragments", "object_item_probes", "reordered_list_probes", "pos:dict-key", "rejections_judged", "route:attr", "route:dotted", "route:ctor", "route:load_tree", "route:loads", "pos:nested",
             "pos:ctype", "pos:list-item", "pos:dict-entry", "pos:list-scalar", "pos:subconfig-slot", "friendly_names_judged",
             "after_prior_load")
 ASSUMPTIONS = ["unknown keys (AttributeError) and non-map top-level documents are not 'a value for a declared field'",
@@ -45,6 +45,26 @@ def generate(rng, ctx):
         if nd["kind"] == "schema" and "[]" not in path and rng.random() < 0.3:
             nd["style"] = "mounted"
             mounted += 1
+    # twins: a second list with the same item type / a second section of the same shape next to the original, so that
+    # configuration objects can be moved between two fields of one owner
+    twins = 0
+    for path, nd in list(spec.walk(schema)):
+        if "[]" in path or rng.random() > 0.5:
+            continue
+        is_list = nd["kind"] == "field" and nd["family"] == "list" and nd.get("item") and nd["item"]["kind"] != "field"
+        if not (is_list or nd["kind"] in ("schema", "ctype")):
+            continue
+        owner = spec.node_at(schema, spec.split_parent(path)[0]) if "." in path else schema
+        kids = model.fields_of(owner)["fields"]
+        if any(ch["key"] == nd["key"] + "_tw" for ch in kids) or nd["key"].endswith("_tw"):
+            continue
+        tw = dict(nd)
+        tw["key"] = nd["key"] + "_tw"
+        tw.pop("style", None)
+        if is_list:
+            tw["params"] = {}
+        kids.append(tw)
+        twins += 1
     env = gen.GEN_ENV
     targets = enumerate_targets(schema)
     rng.shuffle(targets)
@@ -83,8 +103,9 @@ def generate(rng, ctx):
                        "index": rng.choice([0, 0, 1, 2]), "nitems": rng.choice([1, 2, 3]), "equal_items": rng.random() < 0.5,
                        "key": rng.choice(["k1", "kk", "a.b", "K"]), "fmt": rng.choice(FMT_FOR_LOADS),
                        "prior_load": rng.random() < 0.4, "reorder": rng.choice([None, None, "insert0", "pop0", "reverse"]),
-                       "object_items": rng.random() < 0.5})
-    return {"schema": schema, "probes": probes, "mounted": mounted}
+                       "object_items": rng.random() < 0.5, "moved": rng.random() < 0.5,
+                       "move_how": rng.choice(["append", "setitem", "assign", "insert0"])})
+    return {"schema": schema, "probes": probes, "mounted": mounted, "twins": twins}
 
 
 def probes(ctx):
@@ -166,6 +187,8 @@ def run(case, ctx, res):
             err, want_path, fname, feat = out
             if feat.endswith(":after-reorder"):
                 res.count("reordered_list_probes")
+            if "moved-from-sibling" in feat:
+                res.count("moved_object_probes:" + feat.split(":")[0])
             if feat.endswith(":object-items") or pr.get("object_items"):
                 res.count("object_item_probes")
             res.count("rejections_judged")
@@ -267,9 +290,107 @@ def attempt_objects(cc, drv, pr, route, rng):
     return None
 
 
+def attempt_moved(cc, drv, pr, route, rng):
+    """A configuration object is moved between two fields of ONE owner (an item from the twin list into the list, the
+    twin section into the section) and a value inside it is rejected afterwards: the error must name the place where
+    the object lives now."""
+    root, cfg = drv.root, drv.cfg
+    parts = pr["path"].split(".")
+    value = spec.realize(cc, copy.deepcopy(pr["bad"]))
+    li = [i for i, p in enumerate(parts) if p.endswith("[]")]
+    try:
+        if pr["pos"] == "list-item":
+            if len(li) != 1 or li[0] == len(parts) - 1:
+                return None
+            list_path = ".".join(parts[: li[0] + 1])[:-2]
+            if "[" in list_path or list_path.endswith("_tw") or spec.node_at(root, list_path + "_tw") is None:
+                return None
+            lnode = spec.node_at(root, list_path)
+            a, b = valid_item(drv, lnode["item"], rng), valid_item(drv, lnode["item"], rng)
+            if a is None or b is None:
+                return None
+            base = {}
+            _put(base, list_path.split("."), [copy.deepcopy(a) for _ in range(max(pr["nitems"], 1))])
+            _put(base, (list_path + "_tw").split("."), [copy.deepcopy(b), copy.deepcopy(a)])
+            cfg.load_tree(copy.deepcopy(base), validate=False)
+            src, dst = spec.get_path(cfg, list_path + "_tw"), spec.get_path(cfg, list_path)
+            obj = src.pop(0)
+            how = pr.get("move_how", "append")
+            if how == "append":
+                dst.append(obj)
+                idx = len(dst) - 1
+            elif how == "insert0":
+                dst.insert(0, obj)
+                idx = 0
+            elif how == "setitem":
+                idx = min(pr["index"], len(dst) - 1)
+                dst[idx] = obj
+            else:
+                owner_path, leaf = spec.split_parent(list_path)
+                owner = spec.get_path(cfg, owner_path) if owner_path else cfg
+                setattr(owner, leaf, [obj])
+                idx = 0
+            rest = parts[li[0] + 1:]
+            want = "%s[%d].%s" % (list_path, idx, ".".join(rest))
+            feat = "list-item:moved-from-sibling-list"
+            # what the moved object was loaded from now sits at its new place (for the K1 classification below)
+            _put(base, list_path.split("."), [copy.deepcopy(b) for _ in range(idx + 1)])
+        else:
+            if li:
+                return None
+            # the nearest enclosing section that has a twin
+            cut = None
+            for i in range(len(parts) - 1, 0, -1):
+                sec = ".".join(parts[:i])
+                nd = spec.node_at(root, sec)
+                if nd is not None and nd["kind"] in ("schema", "ctype") and not sec.endswith("_tw") and spec.node_at(root, sec + "_tw") is not None:
+                    cut = i
+                    break
+            if cut is None:
+                return None
+            sec = ".".join(parts[:cut])
+            base = {}
+            for which in (sec, sec + "_tw"):
+                t = valid_item(drv, spec.node_at(root, sec), rng)
+                if t is None:
+                    return None
+                _put(base, which.split("."), t)
+            cfg.load_tree(copy.deepcopy(base), validate=False)
+            owner_path, leaf = spec.split_parent(sec)
+            owner = spec.get_path(cfg, owner_path) if owner_path else cfg
+            obj = getattr(owner, leaf + "_tw")
+            setattr(owner, leaf, obj)
+            rest = parts[cut:]
+            want = pr["path"]
+            feat = "section:moved-from-sibling-section"
+            _put(base, sec.split("."), copy.deepcopy(_get(base, (sec + "_tw").split("."))))
+        holder = obj
+        for seg in rest[:-1]:
+            holder = getattr(holder, seg)
+        if not isinstance(holder, cc.Config):
+            return None
+    except Exception:
+        return None
+    node = spec.node_at(root, re.sub(r"\[\d+\]", "[0]", want))
+    if node is None or node["kind"] != "field":
+        return None
+    if _default_ctype_on_path(root, want, base):
+        feat = "ctype-default-instance"
+    fname = node.get("params", {}).get("name")
+    if route == "attr":
+        return _call(lambda: setattr(holder, rest[-1], value)), want, fname, feat
+    if route == "dotted" and "[" not in want:
+        return _call(lambda: cfg.__setitem__(want, value)), want, fname, feat
+    return None
+
+
 def attempt(cc, ctx, drv, pr, route, rng):
     """Deliver the rejected value through one route.  Returns (exception or None, expected path, friendly name,
     feature) or None when the route cannot carry this probe."""
+    if pr.get("moved") and pr["pos"] in ("list-item", "nested", "ctype") and route in ("attr", "dotted"):
+        got = attempt_moved(cc, drv, pr, route, rng)
+        if got is not None:
+            return got
     if pr.get("object_items") and pr["pos"] == "list-item" and route in ("attr", "dotted", "ctor"):
         got = attempt_objects(cc, drv, pr, route, rng)
         if got is not None:
